@@ -16,7 +16,7 @@ SIGMA = ["{", "}", "(", ")", ":", '"', "\\", "u", "1", "a", ".", "-", "#", "\n",
          "\ud83d", "\udc00", "[", "@", "!", "e", "0"]
 EDIT = ["{", "}", "(", '"', "\\", "u", "1", "a", ".", "-", "#", "\n", "$", "\ud83d", "\udc00", "\x00", "[", "@", "!", ":", "="]
 BOUNDS = {
-    "quick": "all strings <=4 over 25 symbols x 5 parsing entry points; every prefix and every single edit (3 ops x 21 symbols x every position) of 2 kitchen-sink files and 30 hand seeds; nesting depth 1..100 x 6 productions complete and cut at every depth; 320 sources x 14 variable maps x 5 operation names through graphql_sync; every builtin Exception class + 16 attribute-shape classes x 8 raise positions x sync/async; every ordered pair of 44 escape forms (fixed-width and braced unicode escapes at every surrogate / plane boundary, simple and invalid escapes, raw surrogates) in a string, alone and as an argument, cut at every position, value compared with the reference tokenizer; structured request matrix: 12 selection contexts (3 operation types, object/list/union/interface parents, fragments) x 21 directive targets (every meta field, every field kind, inline/named spreads) x 92 directive forms (7 directive arguments x 11 value forms, repeats, unknown) x variable definitions x variable maps, against a schema with @defer/@stream (all contexts) and without (3 contexts; all in the thorough tier); 10 typed variables x 18 runtime values x 20 map keys (case-mapping-length-changing, surrogate, non-str) at 5 nesting positions",
+    "quick": "width family: 18 flat document shapes at sizes 1..2500 under the default recursion limit; all strings <=4 over 25 symbols x 5 parsing entry points; every prefix and every single edit (3 ops x 21 symbols x every position) of 2 kitchen-sink files and 30 hand seeds; nesting depth 1..100 x 6 productions complete and cut at every depth; 320 sources x 14 variable maps x 5 operation names through graphql_sync; every builtin Exception class + 190 attribute-shape classes (7 duck-typed attributes x 19 values, source x positions pairs) x 8 raise positions x sync/async; every ordered pair of 44 escape forms (fixed-width and braced unicode escapes at every surrogate / plane boundary, simple and invalid escapes, raw surrogates) in a string, alone and as an argument, cut at every position, value compared with the reference tokenizer; structured request matrix: 12 selection contexts (3 operation types, object/list/union/interface parents, fragments) x 21 directive targets (every meta field, every field kind, inline/named spreads) x 92 directive forms (7 directive arguments x 11 value forms, repeats, unknown) x variable definitions x variable maps, against a schema with @defer/@stream (all contexts) and without (3 contexts; all in the thorough tier); 10 typed variables x 18 runtime values x 20 map keys (case-mapping-length-changing, surrogate, non-str) at 5 nesting positions",
     "thorough": "strings <=5 over 25 symbols; double edits on hand seeds <=25 chars (10 symbols)",
 }
 RULE = (
